@@ -77,7 +77,7 @@ var langs = []string{"english", "japanese"}
 // to the letter (Index panics for a word that is not contained).
 const strictLang = "verif-strict"
 
-var seedLangs = []string{"english", "japanese", strictLang}
+var seedLangs = []string{"english", "japanese", strictLang, tolerantLang}
 
 type strictList struct{ l *ref.List }
 
@@ -89,6 +89,35 @@ func (s strictList) Index(w string) int {
 		panic("verif-strict word list: Index called for a word that is not contained: " + w)
 	}
 	return i
+}
+
+// tolerantLang: a second list registered by the harness whose Contains and Index ignore the case of ASCII
+// letters (a legal List: it maps every spelling it accepts to an index). A sentence spelled "Legal winner ..."
+// is then a valid mnemonic of that list, and its seed is PBKDF2 over the words as given.
+const tolerantLang = "verif-tolerant"
+
+type tolerantList struct{ l *ref.List }
+
+func (s tolerantList) Contains(w string) bool { _, ok := s.l.Index[strings.ToLower(w)]; return ok }
+func (s tolerantList) Word(i int) string      { return s.l.Words[i] }
+func (s tolerantList) Index(w string) int {
+	i, ok := s.l.Index[strings.ToLower(w)]
+	if !ok {
+		panic("verif-tolerant word list: Index called for a word that is not contained: " + w)
+	}
+	return i
+}
+
+// refWords: the spelling under which the reference looks the words up in the list of lang
+func refWords(lang string, words []string) []string {
+	if lang != tolerantLang {
+		return words
+	}
+	out := make([]string, len(words))
+	for i, w := range words {
+		out[i] = strings.ToLower(w)
+	}
+	return out
 }
 
 var strictRef *ref.List
@@ -105,11 +134,15 @@ func init() {
 		strictRef.Index[w] = i
 	}
 	bip39.RegisterWordList(strictLang, func() wordlist.List { return strictList{strictRef} })
+	bip39.RegisterWordList(tolerantLang, func() wordlist.List { return tolerantList{en} })
 }
 
 func list(lang string) *ref.List {
 	if lang == strictLang {
 		return strictRef
+	}
+	if lang == tolerantLang {
+		lang = "english"
 	}
 	l, err := ref.Load(lang)
 	if err != nil {
@@ -132,7 +165,7 @@ func checkSeed(c seedCase) (h.Info, error) {
 	if err := bip39.SetWordList(c.Lang); err != nil {
 		return h.Info{}, err
 	}
-	_, werr := ref.Decode(list(c.Lang), c.Words)
+	_, werr := ref.Decode(list(c.Lang), refWords(c.Lang, c.Words))
 	var pass, nfkd string
 	if c.UseRaw {
 		pass = string(c.RawPass)
@@ -235,6 +268,16 @@ func genSeed(t *rapid.T) seedCase {
 			words[0] = "notaword"
 		}
 	}
+	if lang == tolerantLang {
+		for i := range words {
+			switch h.Pick(t, "caps", 3, 2, 1) {
+			case 1:
+				words[i] = strings.ToUpper(words[i][:1]) + words[i][1:]
+			case 2:
+				words[i] = strings.ToUpper(words[i])
+			}
+		}
+	}
 	c := seedCase{Lang: lang, Words: words}
 	switch h.Pick(t, "pk", 5, 3, 1) {
 	case 0:
@@ -254,7 +297,7 @@ func TestSeed(t *testing.T) {
 		Prop: "C09", Name: "seed", N: 1600,
 		Gen: genSeed, Check: checkSeed,
 		Require: []string{"seed/normalizing-table", "seed/invalid-mnemonic", "seed/empty-passphrase", "seed/normalizing-raw", "seed/sentence-fills-hash-blocks"},
-		Rule:    "valid mnemonics of both built-in lists and of a list registered by the harness (all sizes; one in six searched so that the joined sentence is exactly 111..113, 127..129 or 255..257 bytes long) x passphrases built from a hand-made (raw, NFKD) piece table (composed, compatibility, Hangul, kana, mis-ordered combining marks) or arbitrary strings (NFKD by x/text); seed = own PBKDF2-HMAC-SHA512(2048) over words joined by one space and salt mnemonic||NFKD(passphrase); invalid mnemonics give an error; non-trivial = non-empty passphrase or invalid mnemonic; distinct by case",
+		Rule:    "valid mnemonics of both built-in lists and of two lists registered by the harness (one with a panicking Index, one whose Contains/Index ignore letter case, used with capitalised words: the seed is over the words as given) (all sizes; one in six searched so that the joined sentence is exactly 111..113, 127..129 or 255..257 bytes long) x passphrases built from a hand-made (raw, NFKD) piece table (composed, compatibility, Hangul, kana, mis-ordered combining marks) or arbitrary strings (NFKD by x/text); seed = own PBKDF2-HMAC-SHA512(2048) over words joined by one space and salt mnemonic||NFKD(passphrase); invalid mnemonics give an error; non-trivial = non-empty passphrase or invalid mnemonic; distinct by case",
 	})
 }
 
@@ -310,7 +353,7 @@ func TestSeedInvalidMnemonic(t *testing.T) {
 			if err := bip39.SetWordList(c.Lang); err != nil {
 				return h.Info{}, err
 			}
-			_, werr := ref.Decode(list(c.Lang), c.Words)
+			_, werr := ref.Decode(list(c.Lang), refWords(c.Lang, c.Words))
 			if werr == nil {
 				// the mutation happened to produce a valid sentence: judged by the full seed oracle
 				return checkSeed(seedCase{Lang: c.Lang, Words: c.Words, Pieces: []int{1}})
@@ -319,7 +362,7 @@ func TestSeedInvalidMnemonic(t *testing.T) {
 			if len(c.Words) >= 27 {
 				cls += "/long"
 			}
-			if c.Lang == strictLang {
+			if c.Lang == strictLang || c.Lang == tolerantLang {
 				cls = "invalid/registered-strict-list"
 			}
 			info := h.Info{Class: cls, NT: true}
@@ -633,6 +676,49 @@ func TestParseRenderings(t *testing.T) {
 }
 
 // every White_Space code point separates; complete
+// every length of the joined sentence: the sentence is the PBKDF2 password (HMAC key); a buffer of any
+// fixed size inside a re-implementation is exactly full for one of them
+func TestEverySentenceLength(t *testing.T) {
+	type lenCase struct {
+		Len   int      `json:"len"`
+		Words []string `json:"words"`
+	}
+	lo, hi := 60, 400
+	h.RunEnum(t, h.Enum[lenCase]{
+		Prop: "C09", Name: "seed-every-sentence-length",
+		Rule: fmt.Sprintf("complete enumeration of the byte lengths %d..%d of the joined sentence (English list; one valid sentence per length found by a deterministic search over entropies of all 13 sizes; lengths for which 4000 tries find none are skipped and counted): seed = own PBKDF2-HMAC-SHA512(2048) reference with a non-empty passphrase; all non-trivial", lo, hi),
+		Each: func(yield func(lenCase) bool) {
+			l := list("english")
+			found := map[int][]string{}
+			for j := 0; j < 4000 && len(found) < hi-lo+1; j++ {
+				d := sha512.Sum512([]byte(fmt.Sprintf("every-length/%d", j)))
+				for size := 16; size <= 64; size += 4 {
+					w := ref.Encode(l, d[:size])
+					if n := len(strings.Join(w, " ")); n >= lo && n <= hi && found[n] == nil {
+						found[n] = w
+					}
+				}
+			}
+			if len(found) < (hi-lo+1)*9/10 {
+				h.Note("C09 seed-every-sentence-length: only %d of %d lengths found", len(found), hi-lo+1)
+			}
+			for n := lo; n <= hi; n++ {
+				if w := found[n]; w != nil && !yield(lenCase{n, w}) {
+					return
+				}
+			}
+		},
+		Check: func(c lenCase) (h.Info, error) {
+			info, err := checkSeed(seedCase{Lang: "english", Words: c.Words, Pieces: []int{1}})
+			info.Class, info.NT = "seed/sentence-length", true
+			if err != nil {
+				return info, fmt.Errorf("joined sentence of exactly %d bytes: %w", c.Len, err)
+			}
+			return info, nil
+		},
+	})
+}
+
 func TestAllSeparators(t *testing.T) {
 	type sepCase struct {
 		Sep  h.S `json:"sep"`
